@@ -1145,6 +1145,9 @@ class Interp:
             if isinstance(node.value, ast.Yield):
                 value = self.eval(node.value.value, frame) if node.value.value is not None else None
                 yield value
+            elif isinstance(node.value, ast.YieldFrom):
+                for value in self.iterate(self.eval(node.value.value, frame)):
+                    yield value
             elif isinstance(node.value, ast.Constant):
                 pass
             else:
@@ -2115,6 +2118,14 @@ def _set(interp, args, kwargs):
     for item in items:
         interp._check_hashable(item)
     return set(items)
+
+
+@_ext("builtins.frozenset")
+def _frozenset(interp, args, kwargs):
+    items = list(interp.iterate(args[0])) if args else []
+    for item in items:
+        interp._check_hashable(item)
+    return frozenset(items)
 
 
 @_ext("builtins.sorted")
